@@ -57,25 +57,28 @@ theorem src_quote_path_part_eq_model (nfc : Text → Text) (text : Text) (full :
     Src.urlutils.quote_path_part nfc text full = quotePart .path nfc full text := by
   unfold Src.urlutils.quote_path_part; quote_tie full
 
+-- non-vacuity: `a/b c?` → `a%2Fb%20c%3F`, and only `/`, `?` when not full
+example : Src.urlutils.quote_path_part id [97, 47, 98, 32, 99, 63] true
+    = [97, 37, 50, 70, 98, 37, 50, 48, 99, 37, 51, 70] := by decide +kernel
+example : Src.urlutils.quote_path_part id [97, 47, 98, 32, 99, 63] false
+    = [97, 37, 50, 70, 98, 32, 99, 37, 51, 70] := by decide +kernel
+
 theorem src_quote_query_part_eq_model (nfc : Text → Text) (text : Text) (full : Bool) :
     Src.urlutils.quote_query_part nfc text full = quotePart .query nfc full text := by
   unfold Src.urlutils.quote_query_part; quote_tie full
+
+example : Src.urlutils.quote_query_part id [97, 38, 233] true = [97, 37, 50, 54, 37, 67, 51, 37, 65, 57] := by decide +kernel
 
 theorem src_quote_fragment_part_eq_model (nfc : Text → Text) (text : Text) (full : Bool) :
     Src.urlutils.quote_fragment_part nfc text full = quotePart .fragment nfc full text := by
   unfold Src.urlutils.quote_fragment_part; quote_tie full
 
+example : Src.urlutils.quote_fragment_part id [35, 47] false = [37, 50, 51, 47] := by decide +kernel
+
 theorem src_quote_userinfo_part_eq_model (nfc : Text → Text) (text : Text) (full : Bool) :
     Src.urlutils.quote_userinfo_part nfc text full = quotePart .userinfo nfc full text := by
   unfold Src.urlutils.quote_userinfo_part; quote_tie full
 
-/-! non-vacuity: the generated definitions compute (`a/b c?` → `a%2Fb%20c%3F`, and only `/`, `?` when not full) -/
-example : Src.urlutils.quote_path_part id [97, 47, 98, 32, 99, 63] true
-    = [97, 37, 50, 70, 98, 37, 50, 48, 99, 37, 51, 70] := by decide +kernel
-example : Src.urlutils.quote_path_part id [97, 47, 98, 32, 99, 63] false
-    = [97, 37, 50, 70, 98, 32, 99, 37, 51, 70] := by decide +kernel
-example : Src.urlutils.quote_query_part id [97, 38, 233] true = [97, 37, 50, 54, 37, 67, 51, 37, 65, 57] := by decide +kernel
-example : Src.urlutils.quote_fragment_part id [35, 47] false = [37, 50, 51, 47] := by decide +kernel
 example : Src.urlutils.quote_userinfo_part id [58, 64, 33] true = [37, 51, 65, 37, 52, 48, 33] := by decide +kernel
 example : pathDelims ≠ [] ∧ pathMap.length = 256 := by decide +kernel
 
@@ -228,7 +231,8 @@ theorem src_unquote_to_bytes_eq_model (s : Text) :
     simp only [splitOn_eq l]
     by_cases ht : pieceTl l = []
     · have hc : l.contains 37 = false := (pieceTl_nil_iff l).1 ht
-      simp [ht, hc, piecesDec, pieceHd_of_tl_nil l ht]
+      have hm : 37 ∉ l := by simpa using hc
+      simp [ht, hc, hm, piecesDec, pieceHd_of_tl_nil l ht, PyRtC06.joinEmpty]
     · have hc : l.contains 37 = true := by
         cases h : l.contains 37
         · exact absurd ((pieceTl_nil_iff l).2 h) ht
